@@ -216,19 +216,42 @@ structure PassSt where
   calls : List Nat
   deriving Inhabited
 
+/-- the consuming instruction at `f.ip` accepts the character at the current input position (`prolog` + the test) -/
+def consumeOk (e : Env) (bm : Nat) (f : Fiber) : Bool :=
+  !(bm ≥ e.maxBytes || (e.cs == 2 && byteAt e.buf (e.inp bm + 1) != 0)) && consumeTest e.code e.fl f.ip e.buf e.cs (e.inp bm)
+
+/-- the fiber after a consuming instruction (a spinning REPEAT_ANY keeps its instruction pointer) -/
+def advance (code : Code) (f : Fiber) : Fiber :=
+  if u8 code f.ip = OP_REPEAT_ANY_GREEDY ∨ u8 code f.ip = OP_REPEAT_ANY_UNGREEDY then f
+  else { f with ip := f.ip + sizeOfInstr (u8 code f.ip) }
+
+/-- word boundaries and anchors at the current input position (`op` is not consuming and not MATCH) -/
+def zeroWidthOk (e : Env) (bm : Nat) (op : Nat) : Bool :=
+  let cs := e.cs
+  let inp := e.inp bm
+  let incr : Int := if e.fl.backwards then -(cs : Int) else cs
+  let okRange (i : Int) : Bool := i + cs ≤ e.buf.size && i ≥ 0
+  if op = OP_WORD_BOUNDARY ∨ op = OP_NON_WORD_BOUNDARY then
+    let prev := inp - incr
+    let pw := okRange prev && isWordCharAt e.buf cs prev
+    let iw := okRange inp && isWordCharAt e.buf cs inp
+    let m := pw != iw
+    if op = OP_NON_WORD_BOUNDARY then !m else m
+  else if op = OP_MATCH_AT_START then
+    if e.fl.backwards then !(e.bwdSize > bm) else !(e.bwdSize > 0 || bm != 0)
+  else if op = OP_MATCH_AT_END then
+    !(e.fl.backwards || e.fwdSize > bm)
+  else false                                  -- `default: assert(false)`
+
 /-- the `while (fiber != NULL)` loop of one input position; `none` = out of fuel, `some (st, ub)` -/
 def pass (e : Env) (bm : Nat) : Nat → List Fiber → PassSt → Option (PassSt × Bool)
   | 0, _, _ => none
   | fuel+1, [], st => some (st, false)
   | fuel+1, f :: rest, st =>
     let op := u8 e.code f.ip
-    let cs := e.cs
-    let inp := e.inp bm
     if isConsuming op then
-      if bm ≥ e.maxBytes || (cs == 2 && byteAt e.buf (inp + 1) != 0) then pass e bm fuel rest st
-      else if consumeTest e.code e.fl f.ip e.buf cs inp then
-        let f' : Fiber := if op = OP_REPEAT_ANY_GREEDY ∨ op = OP_REPEAT_ANY_UNGREEDY then f else { f with ip := f.ip + sizeOfInstr op }
-        match sync e.code e.syncFuel [] f' with
+      if consumeOk e bm f then
+        match sync e.code e.syncFuel [] (advance e.code f) with
         | none => none
         | some (l, _, _) => pass e bm fuel rest { st with kept := st.kept ++ l }
       else pass e bm fuel rest st
@@ -236,29 +259,13 @@ def pass (e : Env) (bm : Nat) : Nat → List Fiber → PassSt → Option (PassSt
       let st1 := { st with mval := bm }
       if e.fl.exhaustive then pass e bm fuel rest { st1 with calls := st1.calls ++ [bm] }
       else some (st1, false)                       -- KILL_TAIL
-    else
-      -- zero-width instructions
-      let incr : Int := if e.fl.backwards then -(cs : Int) else cs
-      let okRange (i : Int) : Bool := i + cs ≤ e.buf.size && i ≥ 0
-      let ok : Bool :=
-        if op = OP_WORD_BOUNDARY ∨ op = OP_NON_WORD_BOUNDARY then
-          let prev := inp - incr
-          let pw := okRange prev && isWordCharAt e.buf cs prev
-          let iw := okRange inp && isWordCharAt e.buf cs inp
-          let m := pw != iw
-          if op = OP_NON_WORD_BOUNDARY then !m else m
-        else if op = OP_MATCH_AT_START then
-          if e.fl.backwards then !(e.bwdSize > bm) else !(e.bwdSize > 0 || bm != 0)
-        else if op = OP_MATCH_AT_END then
-          !(e.fl.backwards || e.fwdSize > bm)
-        else false                                  -- `default: assert(false)`
-      if ok then
-        match sync e.code e.syncFuel [] { f with ip := f.ip + 1 } with
-        | none => none
-        | some (l, alive, _) =>
-          if alive then pass e bm fuel (l ++ rest) st          -- ACTION_CONTINUE: the same fiber is examined again
-          else some (st, true)                                 -- the synced fiber was killed: C continues on a dead fiber
-      else pass e bm fuel rest st
+    else if zeroWidthOk e bm op then
+      match sync e.code e.syncFuel [] { f with ip := f.ip + 1 } with
+      | none => none
+      | some (l, alive, _) =>
+        if alive then pass e bm fuel (l ++ rest) st          -- ACTION_CONTINUE: the same fiber is examined again
+        else some (st, true)                                 -- the synced fiber was killed: C continues on a dead fiber
+    else pass e bm fuel rest st
 
 def dedup : List Fiber → List Fiber → List Fiber
   | [], acc => acc.reverse
